@@ -1,6 +1,7 @@
 import Astisub.Driver.Ops
 import Astisub.Driver.Ts
 import Astisub.Driver.IO
+import Astisub.Driver.LinCorr
 
 open Astisub Astisub.Driver Astisub.Proto
 
@@ -10,7 +11,8 @@ def handleLine (line : String) : Verdict :=
   match lhs with
   | [] => .bad "empty"
   | op :: args =>
-    if op.startsWith "ops." then handleOps3 op args impl
+    if op == "ops.lincorr" || op == "lib.f53" then handleLinCorr op args impl
+    else if op.startsWith "ops." then handleOps3 op args impl
     else if op.startsWith "ts." then handleTs op args impl
     else if op.startsWith "io." || op == "lib.scanner" then handleIO op args impl
     else .bad s!"unknown stream {op}"
